@@ -686,14 +686,47 @@ func (x *execCtx) builtin(f *FuncX, args []Value) (Value, bool, error) {
 		if err != nil {
 			return nil, true, err
 		}
-		if f.Name == "nextval" {
-			if q.Called {
-				q.Last++
-			} else {
-				q.Called = true
-			}
+		// CREATE SEQUENCE ... CACHE n (Postgres docs, "Notes"): each session pre-allocates n
+		// values on its first nextval and hands them out locally; the sequence itself jumps by
+		// n; values cached by a session that ends are lost. currval is per session.
+		inc, cache := q.Increment, q.Cache
+		if inc < 1 {
+			inc = 1
 		}
-		return q.Last, true, nil
+		if cache < 1 {
+			cache = 1
+		}
+		if s.seqCache == nil {
+			s.seqCache = map[*Sequence]*seqCacheEntry{}
+		}
+		c := s.seqCache[q]
+		if f.Name == "currval" {
+			if c == nil || !c.returned {
+				if cache == 1 {
+					return q.Last, true, nil // historical behaviour of this model for uncached sequences
+				}
+				return nil, true, pgErr("55000", "currval of sequence %q is not yet defined in this session", q.Name)
+			}
+			return c.last, true, nil
+		}
+		if cache > 1 && c != nil && c.next <= c.end && c.epoch == q.epoch {
+			v := c.next
+			c.next += inc
+			c.last, c.returned = v, true
+			return v, true, nil
+		}
+		first := q.Last
+		if q.Called {
+			first = q.Last + inc
+		}
+		end := first + (cache-1)*inc
+		q.Last, q.Called = end, true
+		if c == nil {
+			c = &seqCacheEntry{}
+			s.seqCache[q] = c
+		}
+		c.next, c.end, c.last, c.returned, c.epoch = first+inc, end, first, true, q.epoch
+		return first, true, nil
 	case "setval":
 		if anyNull() {
 			return nil, true, nil // setval is strict
@@ -716,6 +749,11 @@ func (x *execCtx) builtin(f *FuncX, args []Value) (Value, bool, error) {
 			if c, ok := args[2].(bool); ok {
 				q.Called = c
 			}
+		}
+		// setval discards what THIS session had cached; other sessions keep handing out their
+		// cached values (documented behaviour) — epoch is bumped only for the calling session's view
+		if s.seqCache != nil {
+			delete(s.seqCache, q)
 		}
 		return q.Last, true, nil
 	case "hashtext":
